@@ -117,7 +117,8 @@ def gen(tier, rng, harness=None, driver=None):
             lines += ["core2.reparse " + a, "!core2.rt " + a]
     # inputs the parser accepts although LLVM would not: element annotations of an aggregate constant that differ from the element type of the aggregate
     # (they are kept as written); the printed text must still be a fixpoint
-    for t in ILL_TYPED_ACCEPTED + QUOTED_DIGIT_NAMES + ESCAPED_STRINGS:
+    from . import catalog as _cat
+    for t in ILL_TYPED_ACCEPTED + QUOTED_DIGIT_NAMES + ESCAPED_STRINGS + _cat.bare_digit_identifiers():
         lines.append("!mod.stable - %s" % hx(t))
     from . import metagen
     lines += metagen.print_lines(rng, n)
